@@ -134,7 +134,9 @@ invariant of `C01_main_exit0_partial`):
 * `Proofs.exit0_refDirs C dirs`: the reference log - the directories in walking order (`exit0_dirsOf conf`), in each
   the names in the order of its stream (sorted, as the shim presents them), for each name the lines of its file. -/
 
-/-- **The dry run predicts the real run.**  Maildir mode, the fault-free plan, rules without discard, no
+/-- **The dry run predicts the real run.**  Maildir mode, the fault-free plan, rules without discard that ask the
+operating system nothing (`Proofs.asksFree`: a `command` condition is run once by the dry run and once by the real run
+and may answer differently; `isdirectory "d"` may change between the runs), no
 message visited twice (`Proofs.exit0_Good`, see `C01_main_exit0_partial`): when both runs end with exit status
 0, the log of the dry run - the `-> destination` lines, in order - EQUALS the log of the real run, and both are
 the reference log.  With `C01_main_exit0_partial` (same hypotheses): the messages that have a line are exactly
@@ -143,6 +145,7 @@ without a line (no match) is bound as before with its content - the real run act
 the dry run lists, as listed. -/
 theorem C06_dry_predicts_real_partial (env : PEnv) (orc : EvalOracles) (confOk : Bool) (conf : List ConfBlock) (files : Files)
     (input : Bytes) (w : World) (hm : env.stdinMode = false) (hsyn : env.syntaxOnly = false) (hdry : env.dryrun = false)
+    (hfree : ∀ b ∈ conf, Proofs.asksFree b.expr = true)
     (hnd : ∀ b ∈ conf, Proofs.WholeNoDiscard env orc b.expr) (hreg : Proofs.WholeReg w files)
     (hgood : Proofs.exit0_Good ⟨env, orc, Proofs.exit0_dirsOf conf, files, w⟩)
     (hreal : (runPlan Plan.none (mainP env orc confOk conf files input) w 0 []).1.1 = 0)
@@ -151,7 +154,7 @@ theorem C06_dry_predicts_real_partial (env : PEnv) (orc : EvalOracles) (confOk :
       (runPlan Plan.none (mainP env orc confOk conf files input) w 0 []).1.2.log ∧
     (runPlan Plan.none (mainP env orc confOk conf files input) w 0 []).1.2.log =
       Proofs.exit0_refDirs ⟨env, orc, Proofs.exit0_dirsOf conf, files, w⟩ (Proofs.exit0_dirsOf conf) :=
-  Proofs.dry_predicts_real env orc confOk conf files input w hm hsyn hdry hnd hreg hgood hreal hdryrun
+  Proofs.dry_predicts_real env orc confOk conf files input w hm hsyn hdry hfree hnd hreg hgood hreal hdryrun
 
 /-- Non-vacuity: the two-message example with `/y` present and `maildir "/m" { match all move "/y" }` - all
 hypotheses hold (both exit statuses evaluated); so the two logs are equal (two lines each). -/
@@ -160,7 +163,7 @@ example : (runPlan Plan.none (mainP { Proofs.exEnv with dryrun := true } Proofs.
     (runPlan Plan.none (mainP Proofs.exEnv Proofs.wholeExOrc true Proofs.exit0_exConf Proofs.wholeExFiles [])
       Proofs.dry_f21World2 0 []).1.2.log :=
   (C06_dry_predicts_real_partial Proofs.exEnv Proofs.wholeExOrc true Proofs.exit0_exConf Proofs.wholeExFiles []
-    Proofs.dry_f21World2 rfl rfl rfl Proofs.exit0_ex_nd Proofs.dry_f21_reg2 Proofs.dry_ex_good Proofs.dry_ex_runs.1
+    Proofs.dry_f21World2 rfl rfl rfl (by decide) Proofs.exit0_ex_nd Proofs.dry_f21_reg2 Proofs.dry_ex_good Proofs.dry_ex_runs.1
     Proofs.dry_ex_runs.2.1).1
 
 /-- Per file: the lines do not depend on `-d` (any environment, oracle, rules, directory, name, content). -/
